@@ -201,7 +201,7 @@ func vreplayRun(t vtestingT, path string, h func()) {
 		if res == "" {
 			continue
 		}
-		if strings.HasPrefix(res, "vector:") || res == "assume" {
+		if strings.HasPrefix(res, "vector:") || res == "assume" || res == "engine-only" {
 			fmt.Printf("VERIF-NOT-REPRODUCED %s\n", res)
 			return
 		}
